@@ -23,6 +23,10 @@ SUP = [
     ["CREATE TABLE k (a int, CONSTRAINT ck CHECK (a > 1));", "CREATE DOMAIN s1.d1 AS varchar(10);", "CREATE BIGFILE TABLESPACE ts1;"],
 ]
 SUP.append(["CREATE TABLE n1 (a int NOT NULL, b varchar(10))", "CREATE TABLE n2 (c int)", "CREATE UNIQUE INDEX ni ON n1 (a)"])  # no ';' terminators
+# MSSQL-style batches: GO / USE lines without ';' between supported statements; literals holding unpaired parentheses, ';' and keywords
+SUP.append(["CREATE TABLE g1 (a int NOT NULL);", "GO", "CREATE TABLE g2 (b int, c varchar(5));", "GO", "USE db2", "CREATE INDEX gi ON g2 (b);"])
+SUP.append(["CREATE TABLE l1 (a varchar(9) DEFAULT 'n/a)', b varchar(9) COMMENT 'smile :)', c int DEFAULT 1);",
+            "CREATE TABLE l2 (d varchar(9) DEFAULT ':(', e varchar(20) DEFAULT 'drop table x');"])
 PRE = ["INSERT INTO t1 VALUES (1, 'x');", "GRANT SELECT ON t1 TO joe;", "USE db1;", "GO", "DELETE FROM t1;",
        # the same classes in lower case and spread over several lines
        "insert into t1 values (1, 'x');", "grant select on t1 to joe;", "use db1;", "go", "delete from t1;",
@@ -38,7 +42,9 @@ GRAM = ["SELECT * FROM t1 WHERE a = 1;", "CREATE VIEW v1 AS SELECT a, b FROM t1 
         # lower case / several lines / OR REPLACE
         "select * from t1 where a = 1;", "create view v1 as select a from t1;", "SELECT a,\n  b\nFROM t1\nWHERE a = 1;",
         "CREATE VIEW v1 AS\n  SELECT a\n  FROM t1;", "CREATE OR REPLACE VIEW v AS SELECT 1;"]
-BAD_MODES = ["", "SQL", "Hql", "postgresql", "none", "bigquery ", "sql\n"]
+BAD_MODES = ["", "SQL", "Hql", "postgresql", "none", "bigquery ", "sql\n",
+             # fragments and combinations of valid names
+             "sq", "ql", "my", "snow", "big", "red", "spark", "db2", "post", " sql", "s", ",", ", ", "sql,hql", "sql, hql", "hql,", "ibm", "_"]
 ALL_MODES = ["redshift", "spark_sql", "mysql", "bigquery", "mssql", "databricks", "sqlite", "vertics", "ibm_db2", "postgres",
              "oracle", "hql", "snowflake", "athena", "sql"]
 
@@ -49,7 +55,7 @@ def bounds(tier):
 
 
 def boundaries(lines):
-    return [0] + [i + 1 for i, l in enumerate(lines) if l.rstrip().endswith(";")]
+    return [0] + [i + 1 for i, l in enumerate(lines) if l.rstrip().endswith(";") or l.split()[0] in ("GO", "USE")]
 
 
 def gen_cases(tier):
